@@ -346,6 +346,12 @@ func (s *sim) absent(fields []int32, why string) {
 			}
 		}()
 		b, err = csproto.Marshal(s.m)
+		if errors.Is(err, csproto.ErrMarshaler) {
+			// csproto.Marshal has no arm for this host (a message with neither Marshal nor XXX_Marshal that is not a
+			// v2 message): the bytes of the owning runtime's Marshal are the message's marshaled bytes
+			s.w.Probe("absence_judged_on_owning_runtime_marshal")
+			b, err = rtMarshal(s.h, s.m)
+		}
 	}()
 	if err != nil {
 		s.w.Probe("unjudged_marshal_failure")
